@@ -303,10 +303,10 @@ func main() {
 		run.Extra["seconds_"+name] = int(time.Since(t0).Seconds())
 		t0 = time.Now()
 	}
-	modelHistories(run, qs, []*storex.Profile{kvHeavy, catalogHeavy, sessionHeavy, txnHeavy}, run.Scale(160, 900), 25, run.Scale(12, 6))
+	modelHistories(run, qs, []*storex.Profile{kvHeavy, catalogHeavy, sessionHeavy, txnHeavy}, run.Scale(160, 600), 25, run.Scale(12, 6))
 	lap("model_histories")
 	wideWitnesses(run)
-	wideHistories(run, run.Scale(120, 500), 30)
+	wideHistories(run, run.Scale(120, 300), 30)
 	lap("wide_histories")
 	pre, ls := catalogAlphabet()
 	exhaustive(run, "catalog", qs, pre, ls, run.Scale(2, 3))
